@@ -1,3 +1,4 @@
+mod buildgen;
 mod buildsim;
 mod cligen;
 mod clock;
@@ -79,6 +80,19 @@ fn main() {
                 }
                 Err(e) => {
                     eprintln!("HARNESS-ERROR: cligen: {}", e);
+                    2
+                }
+            }
+        }
+        "buildgen" => {
+            let out = opts.extra.get("out").cloned().unwrap_or_else(|| "/verif/work/bsink".to_string());
+            match buildgen::generate(opts.seed, opts.runs as usize, std::path::Path::new(&out)) {
+                Ok(n) => {
+                    println!("buildgen: {} worlds -> {}", n, out);
+                    0
+                }
+                Err(e) => {
+                    eprintln!("HARNESS-ERROR: buildgen: {}", e);
                     2
                 }
             }
